@@ -280,6 +280,22 @@ class VKeys(V):
         self.base, self.what = base, what
 
 
+class VRowStr(V):
+    """delimiter.join(map(make_str, [u, v, t])): an opaque row of an edge-list file, kept as its constructor arguments
+    (trusted codec axiom: the constructor is injective on (node, node, int) for a fixed delimiter)"""
+    kind = 'rowstr'
+
+    def __init__(self, fields):
+        self.fields = list(fields)
+
+
+class VMapped(V):
+    kind = 'mapped'
+
+    def __init__(self, fn, items):
+        self.fn, self.items = fn, list(items)
+
+
 class VSeq(V):
     """symbolic-length sequence: length n (z3 Int) and element access elem(i)->V; immutable value
     (appends build a new VSeq).  `sorted_` records the trusted post-condition of sorted()."""
